@@ -215,6 +215,10 @@ func (e *Environment) MakeRegister(originalName string, v int64) Register {
 // ReleaseAllRegisters gives back every register of this environment. Used after a panic was recovered:
 // the loops that were holding them are gone without having released them.
 func (e *Environment) ReleaseAllRegisters() {
+	// Their variables keep the value they had, like when registers are off.
+	for i := range e.numReg {
+		e.store[e.regNames[i]] = Integer{Value: e.registers[i]}
+	}
 	e.numReg = 0
 }
 
